@@ -90,9 +90,7 @@ def executable_programs(run, info):
     for p in progen.binding_scenario_programs():
         yield p
     rh = list(progen.raise_handler_programs(info=sk))
-    step = 1 if run.tier != 'quick' else 4
-    off = run.seed % step
-    for p in rh[off::step]:
+    for p in rh:                 # all 432 shapes in both tiers (~10 s): explicit raises into outer handlers
         yield p
     for p in progen.jump_context_programs(2, cap=150 if run.tier == 'quick' else 1500, rng=random.Random(run.rng.getrandbits(48)), info=sk):
         yield p
@@ -260,7 +258,10 @@ def _work(task):
                 else:
                     var = o.get('var') if o.get('var') is not None else pd.vid(o['name'])
                     if o.get('k') is not None and var is not None:
-                        q = ['read', v.idx[o['k']], var] if o['kind'] == 'read' else ['entry', o['k'], o['sid'], var]
+                        if o['kind'] == 'read':
+                            q = ['read', v.idx[o['k']], var] + ([[list(x) for x in o['anno']]] if o.get('anno') is not None else [])
+                        else:
+                            q = ['entry', o['k'], o['sid'], var]
             if q is not None:
                 ls = v.lean_steps()
                 slot = per_fid.setdefault(o['act'].fid, {})
@@ -430,6 +431,10 @@ def classify_c06(f, ans):
         return pre if (pre == 'value_written_by_another_activation' and ans[1] in ('foreign', 'unbound')) else None
     if pre:
         return None          # the harness saw a foreign writer, the Lean reading of the trace a direct one
+    if head == 'read' and fl.get('concl') and fl.get('anno_at_eval') is False and f.get('where') == 'nested_def_args' \
+            and fl.get('postfix') and fl.get('path') and fl.get('gen'):
+        # in_ of the evaluating node has the definition, the annotation was taken from another state (Lean: nameDefsAtEval = false)
+        return 'read_in_default_of_nested_def'
     if head not in ('read', 'entry') or fl.get('concl'):
         return None          # in_/out contain the definition although the annotation does not
     if not fl.get('postfix') or not fl.get('gen') or fl.get('other_kill'):
@@ -458,8 +463,8 @@ def classify_c07(f, ans):
     for r in fl.get('readers') or []:
         if r[0] == 'direct':
             # a direct read that the node's Scope does not record (hgen of live_sound, property C08): listed only for the
-            # reads of `except <type>:` expressions, which belong to no CFG node at all
-            cls.add('read_in_except_handler_type' if f.get('where') == 'except_type' else None)
+            # reads of `except <type>:` expressions and of class bodies, which belong to no CFG node's Scope at all
+            cls.add({'except_type': 'read_in_except_handler_type', 'class_body': 'read_in_class_body'}.get(f.get('where')))
             continue
         _, rf = _flags(['closure'] + r[2:])
         if rf.get('covered'):
